@@ -238,3 +238,24 @@ def alu_safe_b(rng):
 
 def structured_programs(n, rng, start_id=2000000, mbc=None, steps=None):
     return [structured_program(start_id + i, rng, mbc=mbc, steps=steps) for i in range(n)]
+
+
+def edge_access_programs(rng):
+    """C11: word accesses and stack operations at the edges of the address space, as instructions."""
+    out = []
+    sid = 3000000
+    cases = []
+    for spv in (0x0000, 0x0001, 0x0002, 0xFFFF, 0xFFFE, 0x8000, 0xA000, 0xA001, 0xC000, 0xFE00, 0xFEA1, 0xFF81):
+        cases.append(("push", spv, [0xC5, 0xD5, 0xF5, 0xE5]))
+        cases.append(("pop", spv, [0xC1, 0xD1, 0xE1, 0xF1]))
+        cases.append(("call", spv, [0xCD, 0x60, 0x01]))       # CALL 0x160
+        cases.append(("rst", spv, [0xEF]))
+        cases.append(("ret", spv, [0xC9]))
+    for a16 in (0xFFFF, 0xFFFE, 0x7FFF, 0x9FFF, 0xBFFF, 0xDFFF, 0xFDFF, 0xFE9F, 0xFEFF, 0xFF7F):
+        cases.append(("ldsp", 0xD000, [0x08, a16 & 0xFF, a16 >> 8]))
+    for cart in ((0, 0, 0), (1, 1, 1), (0x13, 2, 0), (3, 0, 3)):
+        for name, spv, code in cases:
+            chunks = [(0x28, [0xC9]), (0x160, [0xC9]), (0x100, code + [0x00, 0x00, 0x18, 0xFE])]
+            out.append(scenario(sid, chunks, cpu(a=0x12, b=0x34, c=0x56, d=0x78, e=0x9A, h=0xC1, l=0x00, sp=spv, pc=0x100), 1, cart=cart))
+            sid += 1
+    return out
